@@ -365,7 +365,7 @@ def specs(tier, seed):
         out.append(("T1zero", dict(v[2], shape="T1", capital=64.0, prices={"a": [4.0, 0.0, 2.0, 0.0], "b": [1.0, 2.0, 0.0, 1.0]}, preops=[["next"]]), 1, 2))
     else:
         for x in v:
-            out.append(("T1", dict(x, shape="T1", capital=64.0), 2, 4 if x is v[0] else 3))  # (length 4 on one cost model: 16^4 histories x 5 positions x 4 runs)
+            out.append(("T1", dict(x, shape="T1", capital=64.0), 2, 3))  # (length 4 = 16^4 histories x 5 positions x 4 runs does not fit into the hour this tier has)
             out.append(("T2", dict(x, shape="T2", capital=64.0, prefund=[[[], "s1", 24.0], [[], "s2", 8.0]]), 2, 3))
             out.append(("T2u", dict(x, shape="T2", capital=64.0), 2, 3))
             out.append(("T3", dict(x, shape="T3", capital=64.0, prefund=[[[], "s1", 32.0], [["s1"], "s11", 16.0]]), 2, 3))
